@@ -249,6 +249,9 @@ func Entity(i int, e Ent) *gtfsrt.FeedEntity {
 				if s.Prio.Val()%2 == 0 {
 					so = fmt.Sprintf("MTASBWY:%s:%02d", "G", s.Prio.Val())
 				}
+				if s.Prio.Val()%3 == 0 { // the GTFS id may be an agency alone: two segments
+					so = fmt.Sprintf("MTASBWY:%d", s.Prio.Val())
+				}
 				proto.SetExtension(sel, gtfsrt.E_MercuryEntitySelector, &gtfsrt.MercuryEntitySelector{SortOrder: &so})
 			}
 			al.InformedEntity = append(al.InformedEntity, sel)
